@@ -238,6 +238,20 @@ theorem max_is_the_largest_hourly_value (x : HQ) (v : Val) (h : Val.max (.h x) =
 
 example : Val.max (.h ⟨[(0, -3), (3600, -1), (7200, -2)], ⟨1, {}⟩⟩) = .ok (.q ⟨-1, ⟨1, {}⟩⟩) := by decide +kernel
 
+/-! ## hour-by-hour comparison -/
+
+/-- `np_compared_with(other, "max")` on two series of the same length **in the same unit** is the larger of the
+two values at every position — it compares raw magnitudes, which is why every caller normalises the units of the
+operands first (seeds C04-b / C07-f convert afterwards instead) -/
+theorem npmax_same_unit (a b : Series) (u : Efp.Unit) (h : a.length = b.length) :
+    Val.npCompared true (.h ⟨a, u⟩) (.h ⟨b, u⟩)
+      = .ok (.h ⟨List.zipWith (fun p q => (p.1, if p.2 ≥ q.2 then p.2 else q.2)) a b, u⟩) := by
+  simp [Val.npCompared, Series.zipPos, h, bind, Except.bind, pure, Except.pure]
+
+/-- … and it is *not* the physical maximum when the units differ: 1 TB against 600 GB -/
+example : Val.npCompared true (.h ⟨[(0, 1)], ⟨8000000000000, {}⟩⟩) (.h ⟨[(0, 600)], ⟨8000000000, {}⟩⟩)
+    = .ok (.h ⟨[(0, 600)], ⟨8000000000000, {}⟩⟩) := by decide +kernel
+
 /-! ## shift by a duration -/
 
 /-- **a shift by the duration `d` moves every hour `t` to the hour that contains `t + d`**: the number
